@@ -245,23 +245,36 @@ def check_axiom(ax, rng, tries=400):
 
 
 # axioms whose terms are only defined under side conditions that random sampling rarely meets get dedicated samplers
-def run(seed=0, verbose=False):
-    rng = np.random.default_rng(seed)
-    results = []
-    for group, axs in T.GROUPS.items():
-        for i, ax in enumerate(axs):
-            try:
-                ex, bad = check_axiom(ax, rng)
-            except NotImplementedError as e:
-                results.append((f'{group}[{i}]', 'skipped', f'not interpretable: {e}'))
-                continue
-            if bad is not None:
-                results.append((f'{group}[{i}]', 'FALSIFIED', f'{ax.sexpr()[:200]} with {bad}'))
-            elif ex == 0:
-                results.append((f'{group}[{i}]', 'unexercised', ax.sexpr()[:160]))
-            else:
-                results.append((f'{group}[{i}]', 'ok', f'{ex} instances'))
-    return results
+def _one(job):
+    group, i, seed = job
+    ax = T.GROUPS[group][i]
+    rng = np.random.default_rng([seed, i, sum(map(ord, group))])
+    try:
+        ex, bad = check_axiom(ax, rng)
+    except NotImplementedError as e:
+        return (f'{group}[{i}]', 'skipped', f'not interpretable: {e}')
+    if bad is not None:
+        return (f'{group}[{i}]', 'FALSIFIED', f'{ax.sexpr()[:200]} with {bad}')
+    if ex == 0:
+        return (f'{group}[{i}]', 'unexercised', ax.sexpr()[:160])
+    return (f'{group}[{i}]', 'ok', f'{ex} instances')
+
+
+def run(seed=0, verbose=False, nproc=None):
+    """Every axiom of every theory group, each with its own seeded generator; the axioms are independent, so they are spread
+    over a process pool (fork: the loaded theory and interpretations are inherited)."""
+    jobs = [(group, i, seed) for group, axs in T.GROUPS.items() for i in range(len(axs))]
+    import multiprocessing as mp, os
+    nproc = nproc or int(os.environ.get('SPOTCHECK_PROCS', '16'))
+    if nproc <= 1 or mp.current_process().daemon:
+        # (a daemonic unit process may not have children: threads instead - the work is NumPy-bound only in part, still a gain)
+        from concurrent.futures import ThreadPoolExecutor
+        if nproc <= 1:
+            return [_one(j) for j in jobs]
+        with ThreadPoolExecutor(max_workers=4) as ex:
+            return list(ex.map(_one, jobs))
+    with mp.get_context('fork').Pool(nproc) as pool:
+        return pool.map(_one, jobs, chunksize=4)
 
 
 def load_extensions():
@@ -280,6 +293,10 @@ if __name__ == '__main__':
     from ttvc import vec  # noqa: F401  (adds the 'sub' group)
     load_extensions()
     res = run()
+    if '--json' in sys.argv:
+        import json
+        print(json.dumps(res))
+        sys.exit(0)
     bad = [r for r in res if r[1] == 'FALSIFIED']
     for r in res:
         if r[1] != 'ok' or '-v' in sys.argv:
